@@ -504,8 +504,11 @@ func ttFreshID(r *rng, used map[string]bool) string {
 	}
 }
 
+// XML white space (production S): the only characters that can be indentation
+const xmlSpace = " \t\r\n"
+
 func startsWithSpace(s string) bool {
-	return s != "" && strings.TrimLeftFunc(s, isUniSpace) != s
+	return s != "" && strings.TrimLeft(s, xmlSpace) != s
 }
 func isUniSpace(c rune) bool {
 	switch c {
@@ -514,7 +517,7 @@ func isUniSpace(c rune) bool {
 	}
 	return c >= 0x2000 && c <= 0x200a
 }
-func isBlankUni(s string) bool { return strings.TrimFunc(s, isUniSpace) == "" }
+func isBlankXML(s string) bool { return strings.Trim(s, xmlSpace) == "" }
 
 type ttGenOpts struct {
 	MaxCues, MaxStyles, MaxRegions int
@@ -666,8 +669,8 @@ func ttRandDoc(r *rng, o ttGenOpts) *ttDoc {
 				isAnon := false
 				if r.chance(1, 3) {
 					// bare character data: no style, no attributes, not blank, no leading white space
-					run.Text = strings.TrimLeftFunc(run.Text, isUniSpace)
-					if isBlankUni(run.Text) {
+					run.Text = strings.TrimLeft(run.Text, xmlSpace)
+					if isBlankXML(run.Text) {
 						run.Text = "w" + run.Text
 					}
 					isAnon = !(k > 0 && anon[k-1]) // two adjacent bare texts would be one text
